@@ -735,6 +735,39 @@ class LibMixin:
 
     def lib_next(self, a, kw, run, node):
         it = a[0]
+        if isinstance(it, GenV):
+            if isinstance(it.src, tuple):
+                if not it.exhausted and it.taken < len(it.src):
+                    it.taken += 1
+                    return it.src[it.taken - 1]
+            elif not it.exhausted:
+                rest = self.gen_rest(it, consume=False)
+                if run.decide(("nonempty", rest.term), self.site(node)):
+                    cnt, var = self.loop_item(it.src, run, node)
+                    k = it.taken
+                    it.taken += 1
+                    # the k-th item: the generic element of the underlying sequence becomes its item k
+
+                    def sub_t(t):
+                        if isinstance(t, tuple):
+                            if len(t) == 2 and t[0] == "elem":
+                                return ("item", sub_t(t[1]), k)
+                            return tuple(sub_t(x) for x in t)
+                        return t
+
+                    def sub_v(v):
+                        if isinstance(v, Sym):
+                            return Sym(sub_t(v.term), v.kind, **{a: b for a, b in v.info.items() if a != "bv"})
+                        if isinstance(v, InstV):
+                            return InstV(v.cls, {a: sub_v(b) for a, b in v.attrs.items()})
+                        if isinstance(v, tuple):
+                            return tuple(sub_v(x) for x in v)
+                        return v
+                    return sub_v(var)
+            if len(a) > 1:
+                return a[1]
+            run.emit("raise-site", "StopIteration", self.site(node), "next() of a generator that may be exhausted")
+            self.throw("StopIteration", "", node)
         if isinstance(it, ListV) and it.items:
             return it.items.pop(0)
         if len(a) > 1:
